@@ -300,6 +300,59 @@ def e2e_odd_names(run, binary, jbin, tmp, tier, fake, first_idx):
     return found
 
 
+def e2e_root_kinds(run, binary, tmp, tier, fake, first_idx):
+    """Roots of different kinds: the source root is a file or a symlink and the destination root an existing FOLDER that has to make way
+    (root deletion permitted), or the other way round.  The filters apply to the destination's entries all the same: an excluded entry
+    inside the destination folder does not take part - it is never deleted (so the folder cannot be removed and the run fails), whatever
+    the kind of the source root.  Both sides must be sent the same filter list."""
+    rng = run.rng
+    found = []
+    n = 10 if tier == 'quick' else 120
+    T = 1_700_000_000_000_000_000
+    for i in range(n):
+        filters = rng.choice([['-.*\\.bak', '-private'], ['-keep.*'], ['+.*\\.txt'], ['-(.*/)?id_key']])
+        pyf = [(f[0], f[1:]) for f in filters]
+        place = ['LL', 'LL', 'RL', 'LR', 'RR'][i % 5]
+        d = os.path.join(tmp, 'r%d' % (first_idx + i))
+        os.makedirs(d)
+        sroot, droot = os.path.join(d, 'src'), os.path.join(d, 'dest')
+        skind = ['file', 'link', 'dir'][i % 3]
+        folder = {'': {'k': 'dir'}, 'keep.bak': {'k': 'file', 'data': b'bak', 'mtime_ns': T}, 'a.txt': {'k': 'file', 'data': b'a', 'mtime_ns': T},
+                  'private': {'k': 'dir'}, 'private/id_key': {'k': 'file', 'data': b'key', 'mtime_ns': T}, 'plain': {'k': 'file', 'data': b'p', 'mtime_ns': T},
+                  'sub': {'k': 'dir'}, 'sub/keep.bak': {'k': 'file', 'data': b'bak2', 'mtime_ns': T}, 'sub/id_key': {'k': 'file', 'data': b'k2', 'mtime_ns': T}}
+        if skind == 'dir':
+            e2e.build_tree(sroot, {'': {'k': 'dir'}, 'new.txt': {'k': 'file', 'data': b'n', 'mtime_ns': T}})
+            e2e.build_tree(droot, folder)
+        else:
+            e2e.build_tree(sroot, {'': {'k': 'file', 'data': b'SRC', 'mtime_ns': T + 5}} if skind == 'file' else {'': {'k': 'link', 'text': b'nowhere'}})
+            e2e.build_tree(droot, folder)
+        s0, d0 = e2e.snapshot(sroot), e2e.snapshot(droot)
+        args = [('localhost:' if place[0] == 'R' else '') + sroot, ('localhost:' if place[1] == 'R' else '') + droot,
+                '--dest-root-needs-deleting', 'delete', '--dest-entry-needs-deleting', 'delete']
+        for f in filters:
+            args += ['--filter', f]
+        r = e2e.run_cli(binary, args, fake_ssh=fake if 'R' in place else None, timeout=120)
+        s1, d1 = e2e.snapshot(sroot), e2e.snapshot(droot)
+        run.count('e2e-rootkinds:%s:%s' % (skind, place)); run.count('e2e-rootkinds-exit:%s' % r['exit'])
+        run.case(('e2e-rootkinds', tuple(filters), skind, place), True)
+        run.traces_validated += 1
+        bad = None
+        if r['timed_out'] or r['exit'] not in e2e.DOCUMENTED_EXITS:
+            bad = 'run did not end with a documented exit status (exit %s)' % r['exit']
+        elif s1 != s0:
+            bad = 'the source changed'
+        else:
+            for rel in sorted(d0):
+                if rel and FL.takes_part(pyf, rel) is False and d1.get(rel) != d0.get(rel):
+                    bad = 'destination entry %r does not take part (filters %r) but it changed: %r -> %r' % (rel, filters, d0.get(rel), d1.get(rel))
+                    break
+        if bad:
+            found.append(('e2e root kinds (source root a %s, destination root a folder, %s) %r: %s' % (skind, place, filters, bad),
+                          {'driver': 'e2e-rootkinds', 'filters': filters, 'src_kind': skind, 'placement': place, 'exit': r['exit'], 'stderr': r['stderr'][-400:]}))
+        shutil.rmtree(d, ignore_errors=True)
+    return found
+
+
 def e2e_cases(run, binary, jbin, tmp, tier):
     rng = run.rng
     found = []
@@ -323,6 +376,7 @@ def e2e_cases(run, binary, jbin, tmp, tier):
         found += e2e_one(run, binary, jbin, tmp, fake, i, filters, pyf, place, src, dest, via='spec' if i % 5 == 4 else 'args')
     found += e2e_repeat_cases(run, binary, jbin, tmp, tier, fake, first_idx=n)
     found += e2e_odd_names(run, binary, jbin, tmp, tier, fake, first_idx=5000)
+    found += e2e_root_kinds(run, binary, tmp, tier, fake, first_idx=7000)
     return found
 
 
